@@ -145,7 +145,9 @@ def register_tfr2(R):
                    requires=["not " + HELD, "self.result is not self.semaphore"],
                    frame_hist=True, modifies=["hist(self.result)", "hist(self.semaphore)", "self._test_tags", "self._test_start"],
                    # O2: the semaphore is released on every exit, normal or exceptional
-                   exsures=[SEM_OK],
+                   # ... and the buffered test-local tags never survive the block (a target that raises mid-block must not make
+                   # them reappear in front of the NEXT test, nor the start time: "that test's tags", also after a fault (fix cf25f52)
+                   exsures=[SEM_OK, "setof(self._test_tags[0]) == set()", "setof(self._test_tags[1]) == set()", "self._test_start is None"],
                    ensures=[SEM_OK,
                             # O4: the target receives one contiguous block for this test
                             "exists(lambda vnow: implies(self._TestResult__now is not None, vnow is self._TestResult__now) and "
